@@ -41,6 +41,9 @@ pub trait MatFam: 'static {
     fn rm_transpose(m: &mut Self::RM);
     fn rm_to_cm(m: Self::RM) -> Self::CM;
     fn rm_lines(m: Self::RM) -> <Self::LK as Kind<Self::Line>>::V;
+    fn rm_observe(m: &Self::RM, kind: u32);
+    fn rm_map_lines<G: FnMut(Self::Line) -> Self::Line>(m: Self::RM, g: G) -> Self::RM;
+    fn rm_map<G: FnMut(Tok) -> Tok>(m: Self::RM, g: G) -> Self::RM;
 
     // real vek code, column-major type
     fn cm_from_flat(f: Self::Flat, by_cols: bool) -> Self::CM;
@@ -57,6 +60,32 @@ pub trait MatFam: 'static {
     fn cm_transpose(m: &mut Self::CM);
     fn cm_to_rm(m: Self::CM) -> Self::RM;
     fn cm_lines(m: Self::CM) -> <Self::LK as Kind<Self::Line>>::V;
+    fn cm_observe(m: &Self::CM, kind: u32);
+    fn cm_map_lines<G: FnMut(Self::Line) -> Self::Line>(m: Self::CM, g: G) -> Self::CM;
+    fn cm_map<G: FnMut(Tok) -> Tok>(m: Self::CM, g: G) -> Self::CM;
+}
+
+fn observe_any<M: std::fmt::Debug + std::fmt::Display + std::hash::Hash + PartialEq>(m: &M, kind: u32) {
+    use std::fmt::Write;
+    use std::hash::Hasher;
+    match kind % 4 {
+        0 => {
+            let mut w = NullWriter(0);
+            let _ = write!(w, "{:?}", m);
+        }
+        1 => {
+            let mut h = StubHasher::new();
+            m.hash(&mut h);
+            let _ = h.finish();
+        }
+        2 => {
+            let _ = m == m;
+        }
+        _ => {
+            let mut w = NullWriter(0);
+            let _ = write!(w, "{}", m);
+        }
+    }
 }
 
 macro_rules! line_field {
@@ -122,6 +151,9 @@ macro_rules! matfam {
             fn rm_transpose(m: &mut Self::RM) { m.transpose() }
             fn rm_to_cm(m: Self::RM) -> Self::CM { Self::CM::from(m) }
             fn rm_lines(m: Self::RM) -> <Self::LK as Kind<Self::Line>>::V { m.rows }
+            fn rm_observe(m: &Self::RM, kind: u32) { observe_any(m, kind) }
+            fn rm_map_lines<G: FnMut(Self::Line) -> Self::Line>(m: Self::RM, g: G) -> Self::RM { m.map_rows(g) }
+            fn rm_map<G: FnMut(Tok) -> Tok>(m: Self::RM, g: G) -> Self::RM { m.map(g) }
 
             fn cm_from_flat(f: Self::Flat, by_cols: bool) -> Self::CM {
                 if by_cols { Self::CM::from_col_array(f) } else { Self::CM::from_row_array(f) }
@@ -152,6 +184,9 @@ macro_rules! matfam {
             fn cm_transpose(m: &mut Self::CM) { m.transpose() }
             fn cm_to_rm(m: Self::CM) -> Self::RM { Self::RM::from(m) }
             fn cm_lines(m: Self::CM) -> <Self::LK as Kind<Self::Line>>::V { m.cols }
+            fn cm_observe(m: &Self::CM, kind: u32) { observe_any(m, kind) }
+            fn cm_map_lines<G: FnMut(Self::Line) -> Self::Line>(m: Self::CM, g: G) -> Self::CM { m.map_cols(g) }
+            fn cm_map<G: FnMut(Tok) -> Tok>(m: Self::CM, g: G) -> Self::CM { m.map(g) }
         }
     };
 }
@@ -696,6 +731,107 @@ impl<F: MatFam> MatExec<F> {
                 }
                 if !tok::has_violation() {
                     self.check("m[(i, j)]");
+                }
+                true
+            }
+            MObserve => {
+                if !matches!(self.form, MForm::RM(_) | MForm::CM(_)) {
+                    return false;
+                }
+                st.probes[P_MAT_OBSERVE] += 1;
+                if op.f > 0 {
+                    st.fault_cfg[F_OBSERVE_PANIC] += 1;
+                }
+                let form = &self.form;
+                let kind = op.a;
+                let (r, fired) = guard(0, m(OWN_MAIN), if op.f > 0 { Some((Cb::Observe, op.f)) } else { None }, || match form {
+                    MForm::RM(mm) => F::rm_observe(mm, kind),
+                    MForm::CM(mm) => F::cm_observe(mm, kind),
+                    _ => unreachable!(),
+                });
+                if fired {
+                    st.fault_fired[F_OBSERVE_PANIC] += 1;
+                    st.probes[P_OBS_PANIC_FIRED] += 1;
+                }
+                match r {
+                    Ok(()) => {}
+                    Err(Thrown::Injected) if fired => {}
+                    Err(Thrown::Injected) => tok::raise(V10_UNEXPECTED_PANIC, "observe on a matrix: stray injected panic (harness)".into()),
+                    Err(Thrown::Genuine(msg)) => tok::raise(V10_UNEXPECTED_PANIC, format!("observe on a matrix panicked: {}", msg)),
+                }
+                if !tok::has_violation() {
+                    self.check("observe");
+                }
+                true
+            }
+            MMapRows => {
+                let form = std::mem::replace(&mut self.form, MForm::Gone);
+                if !matches!(form, MForm::RM(_) | MForm::CM(_)) {
+                    self.form = form;
+                    return false;
+                }
+                st.probes[P_MAT_MAP_LINES] += 1;
+                let per_elem = op.a & 1 == 1;
+                let what = if per_elem { "Mat::map" } else { "map_rows / map_cols" };
+                if op.f > 0 {
+                    st.fault_cfg[F_CLOSURE_PANIC] += 1;
+                }
+                let mut w = Watch::new(op.f);
+                let (r, _) = {
+                    let w = &mut w;
+                    guard(if op.f > 0 { m(OWN_MAIN) } else { 0 }, 0, None, move || match form {
+                        MForm::RM(mm) => MForm::<F>::RM(if per_elem {
+                            F::rm_map(mm, |t| {
+                                w.hit(Grp::one(t.id));
+                                t
+                            })
+                        } else {
+                            F::rm_map_lines(mm, |l| {
+                                w.hit(l.grp());
+                                l
+                            })
+                        }),
+                        MForm::CM(mm) => MForm::<F>::CM(if per_elem {
+                            F::cm_map(mm, |t| {
+                                w.hit(Grp::one(t.id));
+                                t
+                            })
+                        } else {
+                            F::cm_map_lines(mm, |l| {
+                                w.hit(l.grp());
+                                l
+                            })
+                        }),
+                        _ => unreachable!(),
+                    })
+                };
+                match r {
+                    Ok(form) => {
+                        self.form = form;
+                        // every element went through the closure exactly once
+                        let mut seen: Vec<u32> = w.order.iter().flat_map(|g| g.iter().collect::<Vec<u32>>()).collect();
+                        seen.sort();
+                        let mut want = self.grid.clone();
+                        want.sort();
+                        if seen != want {
+                            tok::raise(V5_ORDER, format!("{}: the closure was not handed every element exactly once", what));
+                            return true;
+                        }
+                        self.check(what);
+                    }
+                    Err(Thrown::Injected) if w.fired => {
+                        st.fault_fired[F_CLOSURE_PANIC] += 1;
+                        st.probes[P_CLOSURE_PANIC_FIRED] += 1;
+                        // R-unwind, closure panic: everything is destroyed exactly once on the way out
+                        for id in self.grid.drain(..) {
+                            if tok::state_of(id) != Some(St::Dropped) {
+                                tok::raise(V7_LEAK, format!("{} unwound: id {} was not dropped", what, id));
+                                break;
+                            }
+                        }
+                    }
+                    Err(Thrown::Injected) => {}
+                    Err(Thrown::Genuine(msg)) => tok::raise(V10_UNEXPECTED_PANIC, format!("{} panicked: {}", what, msg)),
                 }
                 true
             }
